@@ -18,13 +18,11 @@ package keeper
 // Cancel: a pending order is cancelled by its creator, or by the gateway node the creator belongs to.
 //@ func (msgServer) Cancel(goCtx, msg) (resp, err)
 //@   requires msg != nil
-//@   requires forall c string :: has(Pledge, c) ==> Pledge[c].Creator == c
-//@   requires forall c string :: has(PledgeDebt, c) ==> PledgeDebt[c].Sp == c && PledgeDebt[c].Debt.Amount >= 0
-//@   requires forall i int :: 0 <= i && i <= MaxUint64 && has(Shard, i) ==> Shard[i].Id == i && Shard[i].Pledge.Amount >= 0
+//@   requires forall c string :: has(PledgeDebt, c) ==> PledgeDebt[c].Debt.Amount >= 0
+//@   requires forall i int :: 0 <= i && i <= MaxUint64 && has(Shard, i) ==> Shard[i].Pledge.Amount >= 0
 //@   requires has(Order, msg.OrderId) ==> Order[msg.OrderId].Id == msg.OrderId
 //@   requires has(Order, msg.OrderId) && has(Metadata, Order[msg.OrderId].DataId) ==> Metadata[Order[msg.OrderId].DataId].DataId == Order[msg.OrderId].DataId
 //@       && Metadata[Order[msg.OrderId].DataId].CreatedAt + Metadata[Order[msg.OrderId].DataId].Duration <= MaxUint64
-//@   requires forall h int :: 0 <= h && h <= MaxUint64 && has(ExpiredData, h) ==> ExpiredData[h].Height == h
 //@   requires [C11.sched.unique] has(Order, msg.OrderId) && has(Metadata, Order[msg.OrderId].DataId) ==> forall h int :: 0 <= h && h <= MaxUint64 && has(ExpiredData, h) && contains(ExpiredData[h].Data, Order[msg.OrderId].DataId)
 //@         ==> h == u64(Metadata[Order[msg.OrderId].DataId].CreatedAt + Metadata[Order[msg.OrderId].DataId].Duration)
 //@   requires [C11.sched.once] has(Order, msg.OrderId) && has(Metadata, Order[msg.OrderId].DataId) && has(ExpiredData, u64(Metadata[Order[msg.OrderId].DataId].CreatedAt + Metadata[Order[msg.OrderId].DataId].Duration)) ==>
@@ -49,9 +47,8 @@ package keeper
 //@   loop L2 invariant isProvider ==> contains(provider.TxAddresses, msg0.Creator)
 //@   loop L3 invariant -1 <= rangeindex && rangeindex < len(order.Shards)
 //@   loop L3 invariant forall j int :: 0 <= j && j <= rangeindex ==> !has(Shard, order.Shards[j])
-//@   loop L3 invariant forall c string :: has(Pledge, c) ==> Pledge[c].Creator == c
-//@   loop L3 invariant forall c string :: has(PledgeDebt, c) ==> PledgeDebt[c].Sp == c && PledgeDebt[c].Debt.Amount >= 0
-//@   loop L3 invariant forall i int :: 0 <= i && i <= MaxUint64 && has(Shard, i) ==> Shard[i].Id == i && Shard[i].Pledge.Amount >= 0
+//@   loop L3 invariant forall c string :: has(PledgeDebt, c) ==> PledgeDebt[c].Debt.Amount >= 0
+//@   loop L3 invariant forall i int :: 0 <= i && i <= MaxUint64 && has(Shard, i) ==> Shard[i].Pledge.Amount >= 0
 
 // schedule the release of a shard at the end height of its current paid period
 //@ func (Keeper) SetExpiredShardBlock(ctx, shardId, expiredAt)
@@ -71,12 +68,8 @@ package keeper
 // HandleExpiredShard: at the end height of a shard's paid period the shard is released (capacity, collateral, income stop), or,
 // if a renewal is queued, rotated into the next paid period and rescheduled.
 //@ func (Keeper) HandleExpiredShard(ctx, shardId)
-//@   requires forall c string :: has(Pledge, c) ==> Pledge[c].Creator == c
-//@   requires forall c string :: has(PledgeDebt, c) ==> PledgeDebt[c].Sp == c && PledgeDebt[c].Debt.Amount >= 0
-//@   requires forall i int :: 0 <= i && i <= MaxUint64 && has(Shard, i) ==> Shard[i].Id == i && Shard[i].Pledge.Amount >= 0
-//@   requires forall i int :: 0 <= i && i <= MaxUint64 && has(Order, i) ==> Order[i].Id == i
-//@   requires forall w string :: has(Worker, w) ==> Worker[w].Workername == w
-//@   requires forall h int :: 0 <= h && h <= MaxUint64 && has(ExpiredShard, h) ==> ExpiredShard[h].Height == h
+//@   requires forall c string :: has(PledgeDebt, c) ==> PledgeDebt[c].Debt.Amount >= 0
+//@   requires forall i int :: 0 <= i && i <= MaxUint64 && has(Shard, i) ==> Shard[i].Pledge.Amount >= 0
 //@   modifies *
 //@   nopanic [C02.expire.nopanic] when has(Shard, shardId) && has(Order, Shard[shardId].OrderId) ==>
 //@       validAddr(Shard[shardId].Sp) && Order[Shard[shardId].OrderId].Amount.Amount >= 0 && validDenom(Order[Shard[shardId].OrderId].Amount.Denom)
@@ -111,12 +104,8 @@ package keeper
 // Terminate: the owner or a read-write grantee ends a data model; all its orders are settled and its shards removed.
 //@ func (msgServer) Terminate(goCtx, msg) (resp, err)
 //@   requires msg != nil
-//@   requires forall w string :: has(Worker, w) ==> Worker[w].Workername == w
-//@   requires forall c string :: has(Pledge, c) ==> Pledge[c].Creator == c
-//@   requires forall c string :: has(PledgeDebt, c) ==> PledgeDebt[c].Sp == c && PledgeDebt[c].Debt.Amount >= 0
-//@   requires forall i int :: 0 <= i && i <= MaxUint64 && has(Shard, i) ==> Shard[i].Id == i && Shard[i].Pledge.Amount >= 0
-//@   requires forall c string :: has(DidBalances, c) ==> DidBalances[c].Did == c
-//@   requires forall c string :: has(Metadata, c) ==> Metadata[c].DataId == c
+//@   requires forall c string :: has(PledgeDebt, c) ==> PledgeDebt[c].Debt.Amount >= 0
+//@   requires forall i int :: 0 <= i && i <= MaxUint64 && has(Shard, i) ==> Shard[i].Pledge.Amount >= 0
 //@   modifies *
 //@   ensures [C09.terminate.auth] err == nil ==> old(has(Metadata, msg.Proposal.DataId)) && requestSignedBy(msg.Proposal.Owner)
 //@       && (msg.Proposal.Owner == old(Metadata[msg.Proposal.DataId].Owner) || contains(old(Metadata[msg.Proposal.DataId].ReadwriteDids), msg.Proposal.Owner))
@@ -127,10 +116,7 @@ package keeper
 //@   loop L2 invariant -1 <= rangeindex && rangeindex < len(meta.ReadwriteDids)
 //@   loop L2 invariant forall j int :: 0 <= j && j <= rangeindex ==> meta.ReadwriteDids[j] != sigDid
 //@   loop L3 invariant -1 <= rangeindex
-//@   loop L3 invariant forall w string :: has(Worker, w) ==> Worker[w].Workername == w
-//@   loop L3 invariant forall c string :: has(Pledge, c) ==> Pledge[c].Creator == c
-//@   loop L3 invariant forall c string :: has(PledgeDebt, c) ==> PledgeDebt[c].Sp == c && PledgeDebt[c].Debt.Amount >= 0
-//@   loop L3 invariant forall c string :: has(DidBalances, c) ==> DidBalances[c].Did == c
+//@   loop L3 invariant forall c string :: has(PledgeDebt, c) ==> PledgeDebt[c].Debt.Amount >= 0
 //@   loop L4 invariant -1 <= rangeindex
 //@   loop L5 invariant [C01.maporder.terminate] forall i int :: 0 <= i && i <= MaxUint64 ==> (has(Shard, i) <==> (old(has(Shard, i)) && !visited(i)))
 //@   loop L5 invariant [C01.maporder.terminate] forall i int :: 0 <= i && i <= MaxUint64 && has(Shard, i) ==> Shard[i] == old(Shard[i])
@@ -141,11 +127,8 @@ package keeper
 //@ func (Keeper) HandleTimeoutOrder(ctx, orderId)
 //@   requires forall c string :: has(Pledge, c) ==> Pledge[c].Creator == c && i64(Pledge[c].TotalStorage - Pledge[c].UsedStorage) == Pledge[c].TotalStorage - Pledge[c].UsedStorage
 //@   requires forall k bytes :: rawhas(Node, k) ==> k == keyof(Node, rawget(Node, k).Creator)
-//@   requires forall i int :: 0 <= i && i <= MaxUint64 && has(Shard, i) ==> Shard[i].Id == i && i < effShardCount(get(ShardCount))
-//@   requires forall i int :: 0 <= i && i <= MaxUint64 && has(Order, i) ==> Order[i].Id == i
-//@   requires forall h int :: 0 <= h && h <= MaxUint64 && has(TimeoutOrder, h) ==> TimeoutOrder[h].Height == h
-//@   requires forall h int :: 0 <= h && h <= MaxUint64 && has(ExpiredData, h) ==> ExpiredData[h].Height == h
-//@   requires forall c string :: has(Metadata, c) ==> Metadata[c].DataId == c && Metadata[c].CreatedAt + Metadata[c].Duration <= MaxUint64
+//@   requires forall i int :: 0 <= i && i <= MaxUint64 && has(Shard, i) ==> i < effShardCount(get(ShardCount))
+//@   requires forall c string :: has(Metadata, c) ==> Metadata[c].CreatedAt + Metadata[c].Duration <= MaxUint64
 //@   requires [C11.sched.unique] forall c string, h int :: has(Metadata, c) && 0 <= h && h <= MaxUint64 && has(ExpiredData, h) && contains(ExpiredData[h].Data, c) ==> h == u64(Metadata[c].CreatedAt + Metadata[c].Duration)
 //@   requires [C11.sched.once] forall c string, h int, i int, j int :: 0 <= h && h <= MaxUint64 && has(ExpiredData, h) && 0 <= i && i < j && j < len(ExpiredData[h].Data) ==> !(ExpiredData[h].Data[i] == c && ExpiredData[h].Data[j] == c)
 //@   requires effShardCount(get(ShardCount)) <= MaxUint64 - 1000000 && (has(Order, orderId) ==> len(Order[orderId].Shards) < 1000000)
@@ -191,7 +174,7 @@ package keeper
 //@   loop L4 decreases [C02.timeout.term] len(uncompletedShards) - rangeindex
 //@   loop L5 frameexcept order
 //@   loop L5 invariant -1 <= rangeindex && rangeindex < len(randSp)
-//@   loop L5 invariant forall i int :: 0 <= i && i <= MaxUint64 && has(Shard, i) ==> Shard[i].Id == i && i < effShardCount(get(ShardCount))
+//@   loop L5 invariant forall i int :: 0 <= i && i <= MaxUint64 && has(Shard, i) ==> i < effShardCount(get(ShardCount))
 //@   loop L5 invariant effShardCount(get(ShardCount)) <= old(effShardCount(get(ShardCount))) + rangeindex + 1 && effShardCount(get(ShardCount)) >= old(effShardCount(get(ShardCount)))
 //@   loop L5 invariant has(Order, orderId0)
 //@   loop L5 invariant [C12.timeout.progress] order.Timeout == old(Order[orderId0].Timeout) && order.Id == orderId0
@@ -199,7 +182,6 @@ package keeper
 
 // providers that hold the shards of a model's latest order (reused by a force-push)
 //@ func (Keeper) FindSPByDataId(ctx, dataId) (nodes)
-//@   requires forall c string :: has(Node, c) ==> Node[c].Creator == c
 //@   requires forall i int :: 0 <= i && i <= MaxUint64 && has(Order, i) ==> len(Order[i].Shards) < 2147483648
 //@   ensures [C15.findsp.bound] len(nodes) < 2147483648
 //@   modifies nothing
@@ -211,7 +193,6 @@ package keeper
 
 // GetSps: the providers for a new order; an order is rejected rather than under-replicated
 //@ func (Keeper) GetSps(ctx, order, dataId) (sps, err)
-//@   requires forall c string :: has(Node, c) ==> Node[c].Creator == c
 //@   requires forall i int :: 0 <= i && i <= MaxUint64 && has(Order, i) ==> len(Order[i].Shards) < 2147483648
 //@   requires forall k bytes :: rawhas(Node, k) ==> k == keyof(Node, rawget(Node, k).Creator)
 //@   requires forall c string :: has(Pledge, c) ==> i64(Pledge[c].TotalStorage - Pledge[c].UsedStorage) == Pledge[c].TotalStorage - Pledge[c].UsedStorage
@@ -230,16 +211,13 @@ package keeper
 // Store: a signed proposal creates an order for a new model, for an update of an existing model or for a force-push.
 //@ func (msgServer) Store(goCtx, msg) (resp, err)
 //@   requires msg != nil
-//@   requires forall c string :: has(Node, c) ==> Node[c].Creator == c
 //@   requires forall k bytes :: rawhas(Node, k) ==> k == keyof(Node, rawget(Node, k).Creator)
 //@   requires forall c string :: has(Pledge, c) ==> i64(Pledge[c].TotalStorage - Pledge[c].UsedStorage) == Pledge[c].TotalStorage - Pledge[c].UsedStorage
-//@   requires forall i int :: 0 <= i && i <= MaxUint64 && has(Order, i) ==> Order[i].Id == i && len(Order[i].Shards) < 2147483648
+//@   requires forall i int :: 0 <= i && i <= MaxUint64 && has(Order, i) ==> len(Order[i].Shards) < 2147483648
 //@   requires [C16.inv.order] forall i int :: 0 <= i && i <= MaxUint64 && has(Order, i) ==> i < effOrderCount(get(OrderCount))
-//@   requires [C16.inv.shard] forall i int :: 0 <= i && i <= MaxUint64 && has(Shard, i) ==> Shard[i].Id == i && i < effShardCount(get(ShardCount))
+//@   requires [C16.inv.shard] forall i int :: 0 <= i && i <= MaxUint64 && has(Shard, i) ==> i < effShardCount(get(ShardCount))
 //@   requires effShardCount(get(ShardCount)) <= MaxUint64 - 4294967296 && effOrderCount(get(OrderCount)) < MaxUint64
-//@   requires forall h int :: 0 <= h && h <= MaxUint64 && has(TimeoutOrder, h) ==> TimeoutOrder[h].Height == h
-//@   requires forall h int :: 0 <= h && h <= MaxUint64 && has(ExpiredData, h) ==> ExpiredData[h].Height == h
-//@   requires forall c string :: has(Metadata, c) ==> Metadata[c].DataId == c && Metadata[c].CreatedAt + Metadata[c].Duration <= MaxUint64
+//@   requires forall c string :: has(Metadata, c) ==> Metadata[c].CreatedAt + Metadata[c].Duration <= MaxUint64
 //@   requires [C11.sched.once] forall c string, h int, i int, j int :: 0 <= h && h <= MaxUint64 && has(ExpiredData, h) && 0 <= i && i < j && j < len(ExpiredData[h].Data) ==> !(ExpiredData[h].Data[i] == c && ExpiredData[h].Data[j] == c)
 //@   modifies *
 //@   ensures [C09.store.auth] err == nil && old(has(Metadata, msg.Proposal.DataId)) ==> requestSignedBy(msg.Proposal.Owner)
@@ -287,13 +265,11 @@ package keeper
 // Ready: the gateway of a pending order hands it to providers: one waiting shard per chosen provider, first timeout check scheduled.
 //@ func (msgServer) Ready(goCtx, msg) (resp, err)
 //@   requires msg != nil
-//@   requires forall c string :: has(Node, c) ==> Node[c].Creator == c
 //@   requires forall k bytes :: rawhas(Node, k) ==> k == keyof(Node, rawget(Node, k).Creator)
 //@   requires forall c string :: has(Pledge, c) ==> i64(Pledge[c].TotalStorage - Pledge[c].UsedStorage) == Pledge[c].TotalStorage - Pledge[c].UsedStorage
-//@   requires forall i int :: 0 <= i && i <= MaxUint64 && has(Order, i) ==> Order[i].Id == i && len(Order[i].Shards) < 2147483648
-//@   requires [C16.inv.shard] forall i int :: 0 <= i && i <= MaxUint64 && has(Shard, i) ==> Shard[i].Id == i && i < effShardCount(get(ShardCount))
+//@   requires forall i int :: 0 <= i && i <= MaxUint64 && has(Order, i) ==> len(Order[i].Shards) < 2147483648
+//@   requires [C16.inv.shard] forall i int :: 0 <= i && i <= MaxUint64 && has(Shard, i) ==> i < effShardCount(get(ShardCount))
 //@   requires effShardCount(get(ShardCount)) <= MaxUint64 - 4294967296
-//@   requires forall h int :: 0 <= h && h <= MaxUint64 && has(TimeoutOrder, h) ==> TimeoutOrder[h].Height == h
 //@   modifies *
 //@   ensures [C10.ready.actor] err == nil ==> msg.Provider == old(Order[msg.OrderId].Provider)
 //@       && actsFor(msg.Creator, msg.Provider, old(has(Node, msg.Provider)), old(Node[msg.Provider]))
